@@ -24,6 +24,7 @@ def check(run, text, viol, counts, classes, chains=None, titrate_only=None, remo
         counts["census_not_judged"] = counts.get("census_not_judged", 0) + 1
         return cen
     rec = run.rec
+    nviol0 = len(viol)
     per_conf = {}
     for m, sites in cen["models"].items():
         per_conf["%dA" % m] = sites
@@ -71,6 +72,8 @@ def check(run, text, viol, counts, classes, chains=None, titrate_only=None, remo
         if run.text:
             _check_summary(run, [dict(s_, bridged=False) for s_ in usites if s_["in_list"]], rec["confs"]["AVR"],
                            rec["confs"][names[0]], viol, counts, classes, remove_penalised)
+    _classify_twins(viol, nviol0, text, chains, c)
+    nviol1 = len(viol)
     if same:
         # AVR and the written summary report the same set (identical site sets in all models)
         exp = [s for s in first_sites if s["in_list"]]
@@ -79,7 +82,43 @@ def check(run, text, viol, counts, classes, chains=None, titrate_only=None, remo
         if run.text:
             _check_summary(run, exp, rec["confs"]["AVR"], rec["confs"][names[0]], viol, counts, classes,
                            remove_penalised)
+    _classify_twins(viol, nviol1, text, chains, c)
     return cen
+
+
+def _twin_numbers(text, chains, c):
+    """(chain, number) pairs that are shared by residues differing only in insertion code."""
+    from .. import pdbio
+    seen = {}
+    for line in text.splitlines():
+        tag = (line[:6] + "      ")[:6]
+        if tag in pdbio.ATOM_TAGS and len(line) >= 54:
+            r = pdbio.Rec(line)
+            if r.resn in c["ignore_residues"] or (chains and r.chain not in chains):
+                continue
+            seen.setdefault((r.chain, r.resnum), set()).add(r.icode)
+    return {k for k, v in seen.items() if len(v) > 1}
+
+
+def _classify_twins(viol, start, text, chains, c):
+    """Violations located ON a residue whose (chain, number) is shared by insertion-code twins are
+    attributed to the label-merging mechanism (known finding icode-twins-merged)."""
+    if len(viol) <= start:
+        return
+    twins = _twin_numbers(text, chains, c)
+    if not twins:
+        return
+    twin_labels = set()
+    for (ch, num) in twins:
+        twin_labels.add("%4d%2s" % (num, ch if ch.strip() else "_"))
+    for v in viol[start:]:
+        if v["cls"].startswith("twins:") or not v["cls"].startswith(("census-", "summary-")):
+            continue
+        loc = v.get("loc")
+        if loc is not None and ((loc[0] if loc[0] != "_" else " "), loc[1]) in twins:
+            v["cls"] = "twins:" + v["cls"]
+        elif loc is None and v.get("label") and v["label"][3:9] in twin_labels:
+            v["cls"] = "twins:" + v["cls"]
 
 
 def _sig(sites):
@@ -107,7 +146,7 @@ def _check_conf(name, conf, sites, titrate_only, viol, counts, classes, c, check
         in_list = titrate_only is None or resid in titrate_only
         if not g["use"]:
             if in_list:
-                viol.append({"cls": "census-missing", "msg": "%s: group %s exists but is not reported" % (name, g["label"])})
+                viol.append({"cls": "census-missing", "msg": "%s: group %s exists but is not reported" % (name, g["label"]), "loc": (resid[0], resid[1])})
             continue
         k = (tuple(g["akey"]), g["rtype"]) if match_atoms else (g["aid"][5], resid, g["rtype"])
         got.setdefault(k, []).append(g)
@@ -118,13 +157,13 @@ def _check_conf(name, conf, sites, titrate_only, viol, counts, classes, c, check
             cls = "census-missing" if len(gs) < len(ss) else "census-duplicate"
             viol.append({"cls": cls, "msg": "%s: site %s (%s, atom %s) expected %d time(s), reported %d" % (
                 name, s["label"], s["rtype"], s["akey"][0], len(ss), len(gs)),
-                "detail": {"resid": s["resid"], "rtype": s["rtype"]}})
+                "detail": {"resid": s["resid"], "rtype": s["rtype"]}, "loc": (s["resid"][0], s["resid"][1])})
             continue
         for g in gs:
             counts["census_sites_matched"] = counts.get("census_sites_matched", 0) + 1
             if abs(g["model_pka"] - s["model"]) > 1e-9:
                 viol.append({"cls": "census-model-pka", "msg": "%s: %s has model pKa %.2f, table says %.2f" % (
-                    name, g["label"], g["model_pka"], s["model"])})
+                    name, g["label"], g["model_pka"], s["model"]), "loc": (s["resid"][0], s["resid"][1])})
             if allow_extra or name == "AVR" and not match_atoms:
                 # a conformation completed from other models may gain a bridging partner, and the
                 # average of a bridged and an unbridged conformation is neither: not judged here
@@ -132,12 +171,12 @@ def _check_conf(name, conf, sites, titrate_only, viol, counts, classes, c, check
             elif s["bridged"]:
                 if g["titratable"] or abs(g["pka"] - 99.99) > 1e-9:
                     viol.append({"cls": "census-bridged-cys", "msg": "%s: bridged %s titratable=%s pKa=%.2f" % (
-                        name, g["label"], g["titratable"], g["pka"])})
+                        name, g["label"], g["titratable"], g["pka"]), "loc": (s["resid"][0], s["resid"][1])})
                 classes.append("bridged-cys")
             else:
                 if not g["titratable"] or abs(g["pka"] - 99.99) < 1e-9:
                     viol.append({"cls": "census-not-titrated", "msg": "%s: %s titratable=%s pKa=%.2f although not bridged" % (
-                        name, g["label"], g["titratable"], g["pka"])})
+                        name, g["label"], g["titratable"], g["pka"]), "loc": (s["resid"][0], s["resid"][1])})
     for k, gs in got.items():
         if k not in exp:
             if allow_extra:
@@ -148,7 +187,7 @@ def _check_conf(name, conf, sites, titrate_only, viol, counts, classes, c, check
             g = gs[0]
             viol.append({"cls": "census-spurious", "msg": "%s: reported group %s (%s on atom %s) has no site in the structure%s" % (
                 name, g["label"], g["rtype"], g["aid"][5], " (or is not in the titrate-only list)" if titrate_only is not None else ""),
-                "detail": {"rtype": g["rtype"]}})
+                "detail": {"rtype": g["rtype"]}, "loc": (g["aid"][1], g["aid"][2])})
     if check_hetero:
         _check_hetero(name, conf, viol, counts, classes, c, titrate_only)
 
@@ -212,7 +251,7 @@ def _check_summary(run, exp_sites, avr, first_conf, viol, counts, classes, remov
                                      what, lab, partner), "detail": {"label": lab, "partner": partner}})
                     classes.append("penalised-protein-group")
                 else:
-                    viol.append({"cls": "summary-count", "msg": "%s shows %s %d time(s), expected %d" % (what, lab, have.get(lab, 0), n)})
+                    viol.append({"cls": "summary-count", "msg": "%s shows %s %d time(s), expected %d" % (what, lab, have.get(lab, 0), n), "label": lab})
         # rows that are neither an expected protein site nor a reported hetero group
         het = {}
         for g in avr["groups"]:
@@ -220,7 +259,7 @@ def _check_summary(run, exp_sites, avr, first_conf, viol, counts, classes, remov
                 het[g["label"]] = het.get(g["label"], 0) + 1
         for lab, n in have.items():
             if lab not in want and n > het.get(lab, 0):
-                viol.append({"cls": "summary-spurious", "msg": "%s row %r is not a site of the structure" % (what, lab)})
+                viol.append({"cls": "summary-spurious", "msg": "%s row %r is not a site of the structure" % (what, lab), "label": lab})
     # model pKa column and 99.99 of bridged CYS
     bylab = {}
     for s in exp_sites:
